@@ -43,6 +43,7 @@ func (s Str) Len() int {
 type Float struct {
 	F      float64
 	Opaque bool
+	I      *Term // Opaque && I != nil: the float is the exact image of this signed 64-bit integer (|value| < 2^53 assumed)
 }
 
 type Struct []Value
